@@ -380,6 +380,38 @@ def run_unit(u, tier):
             ("same-short-name-two-namespaces", R({"type": "fixed", "name": "a.F", "size": 1}, {"type": "fixed", "name": "b.F", "size": 2})),
         ]:
             expect_accept(fa, res, s, lab, seen)
+        # a named type that went through parse_schema on its own and is then embedded in another schema: it is a schema
+        # dict like any other and takes the namespace of where it now stands
+        for kind, child in (("record", {"type": "record", "name": "Child", "fields": [{"name": "x", "type": "int"}, {"name": "k", "type": {"type": "enum", "name": "CK", "symbols": ["A"]}}]}),
+                            ("enum", {"type": "enum", "name": "Child", "symbols": ["A", "B"]}), ("fixed", {"type": "fixed", "name": "Child", "size": 2})):
+            for ref in ("Child", "com.acme.Child"):
+                pre = fa.parse_schema(copy.deepcopy(child))
+                outer_raw = {"type": "record", "name": "com.acme.Parent", "fields": [{"name": "c", "type": copy.deepcopy(child)}, {"name": "again", "type": ["null", ref]},
+                                                                                   {"name": "many", "type": {"type": "array", "items": ref}}]}
+                outer_mixed = {"type": "record", "name": "com.acme.Parent", "fields": [{"name": "c", "type": pre}, {"name": "again", "type": ["null", ref]},
+                                                                                     {"name": "many", "type": {"type": "array", "items": ref}}]}
+                res.evals += 1
+                seen.add(f"embedded-{kind}-{ref}")
+                info = {"schema": outer_raw, "variant": outer_raw, "mutation": f"valid:embedded-pre-parsed-{kind}"}
+                node_, defs_ = names.resolve(copy.deepcopy(outer_raw))
+                want = canon.canonical((node_, defs_))
+                table = {}
+                try:
+                    got = fa.schema.to_parsing_canonical_form(fa.parse_schema(outer_mixed, table))
+                except Exception as e:
+                    res.add(Violation("c11.accept", f"valid-rejected:embedded-pre-parsed-{kind}:{type(e).__name__}", f"a schema embedding an already parsed {kind} 'Child' and referring to it as {ref!r} was rejected: {type(e).__name__}: {e}", info))
+                    continue
+                if got != want or set(table) != set(defs_):
+                    res.add(Violation("c11.names", "names-differ-from-spec:embedded-pre-parsed", f"embedded pre-parsed {kind}: names {sorted(table)} / {got!r}, specification gives {sorted(defs_)} / {want!r}", info))
+            # and the same name defined a second time elsewhere in the parent is still a redefinition
+            pre = fa.parse_schema(copy.deepcopy(child))
+            dup = {"type": "record", "name": "com.acme.Parent", "fields": [{"name": "c", "type": pre}, {"name": "d", "type": {"type": "fixed", "name": "Child", "size": 9}}]}
+            res.evals += 1
+            try:
+                fa.parse_schema(dup)
+                res.add(Violation("c11.reject", "ill-formed-accepted:redefined-after-embedded-pre-parsed", f"'Child' embedded pre-parsed and defined again was accepted", {"schema": None, "variant": None, "mutation": "redefined-after-embedded"}))
+            except Exception:
+                pass
         res.distinct = len(seen)
         res.sample({"handmade": len(seen)})
         return res
